@@ -107,6 +107,7 @@ package destination
 //@   spawn_checked
 //@   requires conn != nil && conn.keepSafe != nil && conn.In != nil && conn.numBuffered != nil && !conn.keepSafe.Mutex.held && conn.keepSafe.initialCap >= 0
 //@   requires conn.keepSafe.safeOld.arr != conn.keepSafe.safeRecent.arr || conn.keepSafe.safeOld.arr == 0
+//@   requires conn.keepSafe.closed != nil && !closed(conn.keepSafe.closed)
 //@   requires dest.spool != nil && dest.spool.InBulk != nil && !closed(dest.spool.InBulk)
 //@   requires len(conn.keepSafe.safeOld) >= 0 && len(conn.keepSafe.safeRecent) >= 0
 //@   let k := conn.keepSafe
@@ -231,35 +232,45 @@ package destination
 //@   ensures[separate_buffers; C07] keepSafeInv(k) || k.initialCap == 0
 //@
 //@ // ---------------------------------------------------------------- conn.go: the connection's event loop (C05, C07)
+//@ // close: marks the connection down, tells its goroutine to stop (one message on shutdown) and closes the socket;
+//@ // the writer, the keep-safe buffer and the input queue are not touched (the caller still has to collect them)
 //@ func (c *Conn) close()
-//@   trusted
-//@   modifies *
+//@   property C07,C14
+//@   requires c.shutdown != nil && !closed(c.shutdown) && c.conn != nil && !c.upMutex.held
+//@   modifies c.up, c.upMutex.held, sent(c.shutdown)
 //@   ensures c.buffered == old(c.buffered) && c.keepSafe == old(c.keepSafe) && c.In == old(c.In)
+//@   ensures[stop_requested] sent(c.shutdown) == old(sent(c.shutdown)) ++ elemOf(true) && !c.upMutex.held
 //@
 //@ func (c *Conn) HandleData()
 //@   property C05,C07,C14
+//@   requires c.conn != nil && !c.upMutex.held && !closed(c.shutdown)
 //@   requires connBufOK(c) && c.numErrFlush != nil && c.periodFlush > 0 && c.In != nil && c.keepSafe != nil && !c.keepSafe.Mutex.held && (c.keepSafe.safeOld.arr != c.keepSafe.safeRecent.arr || c.keepSafe.safeOld.arr == 0) && c.flush != nil && c.flushErr != nil && !closed(c.flushErr) && c.shutdown != nil
 //@   requires recvd(c.In) == lnil && c.buffered.view() == "" && !c.pickle && c.numOut != nil
 //@   modifies *
 //@   loop 1:
 //@     invariant[wf] connBufOK(c) && c.In != nil && c.keepSafe != nil && !c.keepSafe.Mutex.held && c.flush != nil && c.flushErr != nil && c.shutdown != nil && !c.pickle && c.numOut != nil && c.numErrFlush != nil && tickerFlush != nil && tickerFlush.C != nil
 //@     invariant[stream_is_the_lines_in_order; C05] c.buffered.view() == linesOf(recvd(c.In))
-//@     assumed_invariant[channel_ownership] !closed(c.In) && !closed(c.flushErr)
+//@     assumed_invariant[channel_ownership] !closed(c.In) && !closed(c.flushErr) && !closed(c.shutdown)
+//@     invariant[socket_and_lock] c.conn != nil && !c.upMutex.held
 //@     invariant[keepsafe_buffers] c.keepSafe.safeOld.arr != c.keepSafe.safeRecent.arr || c.keepSafe.safeOld.arr == 0
 //@   assume_recv "<-c.In": $recv.arr != c.buffered.buf.arr
 //@   branch "<-c.In":
 //@     ensures[kept_safe_before_write; C07] exists b elem :: recvd(c.In) == old(recvd(c.In)) ++ b && len(c.keepSafe.safeRecent) == old(len(c.keepSafe.safeRecent)) + 1
 
 //@ // ---------------------------------------------------------------- conn.go / keepsafe.go / spool.go: the redo path (C07)
+//@ // clearRedo: stops the keep-safe goroutine (closes its channel once; closing it twice would panic)
 //@ func (c *Conn) clearRedo()
-//@   trusted
-//@   modifies c.keepSafe.closed
+//@   property C07,C14
+//@   requires c.keepSafe != nil && c.keepSafe.closed != nil && !closed(c.keepSafe.closed)
+//@   modifies closed(c.keepSafe.closed)
+//@   ensures[stopped] closed(c.keepSafe.closed)
 //@
 //@ // getRedo: everything kept safe plus everything still queued for the connection, nothing dropped
 //@ func (c *Conn) getRedo() [][]byte
 //@   property C07
 //@   requires c.keepSafe != nil && c.In != nil && c.numBuffered != nil && !c.keepSafe.Mutex.held && c.keepSafe.initialCap >= 0
 //@   requires c.keepSafe.safeOld.arr != c.keepSafe.safeRecent.arr || c.keepSafe.safeOld.arr == 0
+//@   requires c.keepSafe.closed != nil && !closed(c.keepSafe.closed)
 //@   let k := c.keepSafe
 //@   modifies k.safeOld, k.safeRecent, k.Mutex.held, k.safeOld[..], k.safeRecent[..], recvd(c.In), drained(c.In), c.numBuffered.count, closed(k.closed), k.closed
 //@   ensures[count; C07] len(result) == old(len(k.safeOld)) + old(len(k.safeRecent)) + llen(recvd(c.In)) - old(llen(recvd(c.In)))
